@@ -251,9 +251,11 @@ def one_case(ctx, prog, label="gen", explicit_wm=None):
             if gl is not None:
                 c["glo"], c["ghi"] = f2h(gl[0]), f2h(gl[1])
             cfgs.append(c)
-        if skip:
+        if skip and CHAIN is None:
             ctx.hit("correspondence-skipped-ambiguous-config")
             continue
+        if skip:
+            ctx.hit("shared-prior-differently-configured-places")
         wire_mode = {"k": mode["k"]}
         for k in ("a", "r", "b"):
             if k in mode:
@@ -271,13 +273,19 @@ def one_case(ctx, prog, label="gen", explicit_wm=None):
         if mode.get("via") == "result":
             req["via_kwargs"] = True
         if CHAIN is not None:
-            req["places"], req["chain"] = places, CHAIN
+            # class and attribute name of every parameter are derived by the model from the composition
+            req["classes"], req["owns"], req["chain"] = c12_cfg.class_table(), [pl.get("own") for pl in places], CHAIN
         else:
             req["cfgs"] = cfgs
         ans = ctx.lean.ask(req)
         if "driver_error" in ans or ans.get("key_error"):
             ctx.disagree("driver", case, None, ans)
             continue
+        if CHAIN is not None:
+            lib_classes = c12_cfg.library_classes(model, priors)
+            if [k[0] for k in ans["place_keys"]] != lib_classes:
+                ctx.disagree("C12.place.class", case, lib_classes[:8], [k[0] for k in ans["place_keys"]][:8])
+                continue
         if not ans.get("cfg_ok", True):
             ctx.disagree("C12.config-readable", case, "passing succeeded", "model: a configuration entry read here is malformed")
         new_priors = list(new.priors_ordered_by_id)
